@@ -11,13 +11,13 @@ from sx.runner import Harness
 ID = "C15"
 MANIFEST = {
     "technique": "bounded model checking with solver-decided choice (SX engine): the dependency strings of the packages of a small source repository (runtime, build, post, build-host and install-time classes; plain atoms, version ranges, slot deps, any-of groups, weak and strong blockers, cycles), the installed set, the targets and the resolver strategy (upgrade / minimal install, with and without re-verification of installed packages) are symbolic selectors; the engine forks over every feasible combination, runs the real resolver (ebuild.resolver.upgrade_resolver / min_install_resolver -> plan.merge_plan.add_atoms with choice_point, plan_state, pigeonholes, caching_repo) and checks the reported plan with a post-condition checker of the statement (no reference resolver is involved: only what a reported success must satisfy is checked)",
-    "level_text": "Bounded model checking, exhaustive within the bound (7-package source repository over 4 names, 2 versions and 2 slots; 6 x 6 x 5 x 4 dependency menus x 4 installed sets x 5 target sets x 4 strategies): whenever add_atoms reports success, the plan together with the installed packages it keeps contains a package matching every target, satisfies at least one alternative of every clause of every dependency class of every package it merges, holds at most one package per name and slot, and contains no package matched by a blocker of a merged package; building the resolver and resolving never raise. Selector-only.",
+    "level_text": "Bounded model checking, exhaustive within the bound (three repository families: 7 packages over 4 names, 2 versions and 2 slots with 6 x 6 x 5 x 4 dependency menus x 4 installed sets x 5 target sets; a library spread over slots with weak/strong blockers against its old versions, 4 installed sets in both listing orders x 6 target sets; a fallback to an older version after a refused candidate; all x 4 strategies): whenever add_atoms reports success, the plan together with the installed packages it keeps contains a package matching every target, satisfies at least one alternative of every clause of every dependency class of every package it merges, holds at most one package per name and slot, and contains no package matched by a blocker of a merged package; building the resolver and resolving never raise. Selector-only.",
     "level_note": "selector-only harness (labelled as such). Packages are pkgcore.test.misc.FakePkg objects with DepSet attributes; repositories are list-backed FakeRepo objects. Nothing is claimed about resolutions that report failure.",
 }
 META = {
     "modules": ["pkgcore.resolver.plan", "pkgcore.resolver.choice_point", "pkgcore.resolver.state", "pkgcore.resolver.pigeonholes", "pkgcore.ebuild.resolver", "pkgcore.repository.misc"],
     "functions": ["resolver.upgrade_resolver / min_install_resolver", "plan.merge_plan.__init__/add_atoms/_rec_add_atom/process_dependencies/insert_blockers", "choice_point.choice_point", "state.plan_state and its operations", "pigeonholes.PigeonHoledSlots", "misc.caching_repo"],
-    "bounds": {"quick": "menus above with two of the four dependency menus varied per obligation", "thorough": "all four dependency menus varied"},
+    "bounds": {"quick": "three repository families: 4 names x 2 versions x 2 slots with 6 x 6 x 5 x 4 dependency menus; a library spread over slots with blockers against old versions; a fallback to an older version after a refused candidate", "thorough": "same (the space is swept completely in both tiers)"},
     "outside": ["USE-conditional dependencies", "more than 7 packages", "resolutions that report failure (no completeness claim)", "the order of the plan (only the final state is judged)"],
     "assumptions": [],
     "selector_only": True,
